@@ -729,7 +729,31 @@ func dpCmd(args []string) {
 				pr("SCHEMA %s PANIC\n", qid)
 				continue
 			}
-			pr("SCHEMA %s %s\n", qid, fmtSchema(sch))
+			first := fmtSchema(sch)
+			// what GetSchema returns belongs to the caller: scribbling over it must not change
+			// what the index reports next
+			for i := range sch.Columns {
+				sch.Columns[i].Name = "scribbled"
+				for j := range sch.Columns[i].Values {
+					sch.Columns[i].Values[j].Value = "scribbled"
+				}
+				if len(sch.Columns[i].Values) > 0 {
+					sch.Columns[i].Values = sch.Columns[i].Values[:len(sch.Columns[i].Values)-1]
+				}
+			}
+			if len(sch.Columns) > 0 {
+				sch.Columns = sch.Columns[1:]
+			}
+			var sch2 *updog.Schema
+			if _, ok := guard(func() { sch2 = ix.GetSchema() }); !ok {
+				pr("SCHEMA %s PANIC\n", qid)
+				continue
+			}
+			if second := fmtSchema(sch2); second != first {
+				pr("SCHEMA %s CHANGED-AFTER-THE-CALLER-MODIFIED-THE-RETURNED-VALUE %s\n", qid, second)
+				continue
+			}
+			pr("SCHEMA %s %s\n", qid, first)
 		case "KEYFEED":
 			s.keyFeed(t.next())
 		case "RAWKEYS":
